@@ -239,7 +239,7 @@ structure Out where
   syms : Syms
   endAddr : Addr
   runs : List (Addr × List UInt8)
-  deriving Repr
+  deriving Repr, DecidableEq
 
 inductive Stage where
   | link1 | pass2 | link2
@@ -250,7 +250,7 @@ inductive Result where
   | error (s : Stage)
   | fault
   | fuel
-  deriving Repr
+  deriving Repr, DecidableEq
 
 /-- the whole protocol for one source and one set of imports: pass-1 discovery, link() of pass 1,
 the source's pass 2 (fails when one of its references is still unknown), link() of pass 2 -/
